@@ -115,6 +115,22 @@ Theorem C16_rowspace_eqb_iff :
 Proof. exact rowspace_eqb_iff. Qed.
 Print Assumptions C16_rowspace_eqb_iff.
 
+(* F-C16-2 (class large_entries_float_tolerance): the exact model REJECTS the witness pair -- the rows (400,399) and
+   (399,398) are not proportional (d * 400 = m * 399 and d * 399 = m * 398 force d = 0) -- while the float SVD
+   comparison of the implementation accepts it (replayed on the real code by every run).  So model <> code inside the
+   class; the theorems above are about the exact model, which is what "spans the same index subspace" means. *)
+Example C16_float_tolerance_refuted :
+  let A := [[400; 399]] in let B := [[399; 398]] in
+  rowspace_eqb A B = false /\ large_entries_float_tolerance A B = true /\
+  (forall d m, d * 400 = m * 399 -> d * 399 = m * 398 -> d = 0) /\
+  (* the class is not everything: the boundary pair with entries <= 300 is outside, and the model rejects it too *)
+  large_entries_float_tolerance [[300; 299]] [[299; 298]] = false /\ rowspace_eqb [[300; 299]] [[299; 298]] = false.
+Proof.
+  cbv zeta. split; [vm_compute; reflexivity|]. split; [vm_compute; reflexivity|].
+  split; [intros d m H1 H2; lia|]. split; vm_compute; reflexivity.
+Qed.
+Print Assumptions C16_float_tolerance_refuted.
+
 Example C16_rowspace_nonvacuous :
   rowspace_eqb [[1; 0; 0]; [0; 1; 0]] [[1; 1; 0]; [1; -1; 0]; [2; 0; 0]] = true /\
   rowspace_eqb [[1; 0; 0]; [0; 1; 0]] [[1; 1; 0]; [1; -1; 1]] = false.
